@@ -556,14 +556,26 @@ def walk_roots(src, lo=3, hi=45):
     return out
 
 
-def order_agrees(src, wpath, types, back=False):
-    """Domain guard: the stdlib source pre-order of the walked subtree equals pfst's undisturbed walk order (C14's
-    matter; where they differ 'what follows' is ambiguous and the case is skipped)."""
-    w = Walk(0, src, wpath, {'on': 'enter', 'back': back, 'recurse': True, 'self': True, 'scope': False}, types)
-    mine = [s['s'] for s in w.snaps[0] if s['e']]
+def order_agrees(src, wpath, types, back=False, scope=False):
+    """Domain guard: pfst's undisturbed walk of the subtree (same filter, direction and scope setting) follows the
+    stdlib source pre-order (children reversed with back): equal without scope, a subsequence with scope=True.  Where
+    it does not (C14's matter, e.g. f-string internals) 'what follows' is ambiguous and the case is skipped."""
+    w = Walk(0, src, wpath, {'on': 'enter', 'back': back, 'recurse': True, 'self': True, 'scope': scope}, types)
+    mine = []
+
+    def rec(n):
+        if eligible(n, types):
+            mine.append(w.ser.of(n.f))
+        ks = kids(n)
+        for c in (reversed(ks) if back else ks):
+            rec(c)
+    rec(w.W.a)
     all_ = False if types is None else set(types)
-    theirs = [w.ser.of(f) for f in w.W.walk(all_)]
-    return mine == theirs
+    theirs = [w.ser.of(f) for f in w.W.walk(all_, scope=scope, back=back)]
+    if not scope:
+        return mine == theirs
+    it = iter(mine)
+    return all(any(x == y for y in it) for x in theirs)
 
 
 # ----------------------------------------------------------------------------------------------------------------------
@@ -680,11 +692,11 @@ def random_case(tid, seed, stats=None):
         types, form = FILTERS[3]
     if api != 'walk':
         form = 'types'
-    key = (pi, tuple(path), types)
+    key = (pi, tuple(path), types, cfg['back'], scope)
     ok = _ORDER_CACHE.get(key)
     if ok is None:
         try:
-            ok = order_agrees(src, path, types)
+            ok = order_agrees(src, path, types, cfg['back'], scope)
         except Exception:  # noqa: BLE001
             ok = False
         _ORDER_CACHE[key] = ok
